@@ -140,6 +140,15 @@ class ExprMixin:
         return STuple([self.eval(fr, e) for e in node.elts], 'tuple')
 
     def e_List(self, fr, node):
+        if any(isinstance(e, ast.Starred) for e in node.elts):
+            # [a, *xs, b]: concatenation of unit sequences and the starred sequences
+            parts = []
+            for e in node.elts:
+                if isinstance(e, ast.Starred):
+                    parts.append(self.as_seq(self.eval(fr, e.value)).t)
+                else:
+                    parts.append(z3.Unit(self.to_val(self.eval(fr, e))))
+            return SSeq(z3.Concat(*parts) if len(parts) > 1 else parts[0], 'list')
         elems = [self.eval(fr, e) for e in node.elts]
         # lists are mutable & usually grow: represent as symbolic sequence
         t = self.seq_of_tuple(STuple(elems))
